@@ -631,3 +631,88 @@ def sanitize(insns):
 def gen_c04_program(rng, name, opts=None):
     g = C04Gen(rng, name, opts)
     return g.build()
+
+
+# ------------------------------------------------------------------ MIR text (subset) -> tuples
+class TextProg:
+    """a program given as MIR text (corpus, replays, shrinking): .funcs/.protos in the tuple form"""
+
+    def __init__(self, text):
+        self._text = text
+        self.funcs, self.protos, self.imports, self.stats = parse_mir_text(text)
+
+    def text(self):
+        return self._text
+
+
+def _split_ops(s):
+    out, depth, cur = [], 0, ""
+    for ch in s:
+        if ch == "(":
+            depth += 1
+        elif ch == ")":
+            depth -= 1
+        if ch == "," and depth == 0:
+            out.append(cur.strip())
+            cur = ""
+        else:
+            cur += ch
+    if cur.strip():
+        out.append(cur.strip())
+    return out
+
+
+def _parse_operand(o):
+    o = o.strip()
+    if re.match(r"^-?\d+$", o):
+        return int(o)
+    if re.match(r"^0x[0-9a-fA-F]+$", o):
+        return int(o, 16)
+    if re.match(r"^r?blk\d?:\d+\(\w+\)$", o):
+        return o
+    m = re.match(r"^(\w+):\s*(-?\d+)?\s*(?:\(([^)]*)\))?$", o)
+    if m and m.group(1) in INT_TYPES:
+        t, disp, sib = m.group(1), int(m.group(2) or 0), m.group(3)
+        base = index = None
+        scale = 1
+        if sib is not None:
+            parts = [x.strip() for x in sib.split(",")]
+            base = parts[0] or None
+            if len(parts) > 1:
+                index = parts[1] or None
+                scale = int(parts[2]) if len(parts) > 2 else 1
+        return ("mem", t, disp, base, index, scale)
+    return o
+
+
+def parse_mir_text(text):
+    funcs, protos, imports = [], set(), set()
+    cur = None
+    for raw in text.split("\n"):
+        line = raw.split("#")[0].rstrip()
+        if not line.strip():
+            continue
+        m = re.match(r"^\s*([\w.$%]+):\s*(.*)$", line)
+        label, rest = (m.group(1), m.group(2).strip()) if m else (None, line.strip())
+        toks = rest.split(None, 1)
+        op = toks[0] if toks else ""
+        args = toks[1] if len(toks) > 1 else ""
+        if op == "proto":
+            protos.add(f"{label}: proto {args}")
+        elif op == "func":
+            cur = [label, args.strip(), [], []]
+        elif op == "endfunc":
+            funcs.append(tuple(cur))
+            cur = None
+        elif op == "local" and cur is not None:
+            cur[2] += [x.strip() for x in args.split(",") if x.strip()]
+        elif op == "import":
+            imports |= {x.strip() for x in args.split(",")}
+        elif op in ("module", "endmodule", "export", "forward"):
+            continue
+        elif cur is not None:
+            if label is not None:
+                cur[3].append(("label", label))
+            if op:
+                cur[3].append((op,) + tuple(_parse_operand(x) for x in _split_ops(args)))
+    return funcs, protos, imports, {}
